@@ -161,7 +161,7 @@ func TestVerifC06(t *testing.T) {
 	}
 	r.Bounds["type_term_depth"] = depth
 	r.Bounds["accessor_chain_length"] = chainLen
-	r.Extra["rule"] = "accessor chains of length <= 3 over {.y, .z, .*, [0], ['y']} on <root>.x in 31 contexts x roots {matrix, steps, needs, inputs, secrets, jobs} typed {x: T} for every type term T up to the depth bound x every single loosening (sub-term -> any, strict -> open object); oracle: an expression without diagnostics under the original environment has none under the loosened one; end-to-end: 4 literal-vs-dynamic definition pairs x consumer expressions, and every include list of 1-3 elements over 4 element forms with one known element made unknown x 8 consumers, through Linter.Lint. class = message skeleton that disappears or stays; non-trivial = original environment reports something"
+	r.Extra["rule"] = "accessor chains of length <= 3 over {.y, .z, .*, [0], ['y']} on <root>.x in 31 contexts x roots {matrix, steps, needs, inputs, secrets, jobs} typed {x: T} for every type term T up to the depth bound x every single loosening (sub-term -> any, strict -> open object); oracle: an expression without diagnostics under the original environment has none under the loosened one; end-to-end: 4 literal-vs-dynamic definition pairs x consumer expressions, and every include list of 1-3 elements over 4 element forms with one known element made unknown x 8 consumers, every row list of 1-3 elements over 5 element forms likewise x 9 consumers (+ a typed position), through Linter.Lint. class = message skeleton that disappears or stays; non-trivial = original environment reports something"
 	r.Extra["assumptions"] = []string{"environments type one property x of one context at a time", "message identity is compared modulo quoted names and type renderings"}
 
 	if raw := vReplayInput(); raw != nil {
@@ -325,6 +325,44 @@ func TestVerifC06(t *testing.T) {
 						continue
 					}
 					c06E2ECompare(r, mk(sel, cons), mk(loose, cons), "matrix-include-element-dynamic")
+				}
+			}
+		}
+	}
+	// a row given as a list: every list of 1-3 elements over {mapping, string, number, sequence,
+	// unknown expression}; loosening = one literal element replaced by the unknown one
+	rowElems := []string{"{a: s}", "name", "1", "[p, q]", "'${{ fromJSON(vars.E) }}'"}
+	rowCons := []string{"matrix.x", "matrix.x.a", "matrix.x[0]", "matrix.x.*", "matrix.x == 1", "matrix.x.a.b", "contains(matrix.x, 'a')", "toJSON(matrix.x)", "matrix.x.*.a"}
+	for n := 1; n <= 3; n++ {
+		total := 1
+		for i := 0; i < n; i++ {
+			total *= len(rowElems)
+		}
+		for code := 0; code < total; code++ {
+			sel := make([]int, n)
+			for i, c := 0, code; i < n; i++ {
+				sel[i] = c % len(rowElems)
+				c /= len(rowElems)
+			}
+			mk := func(sel []int, cons string) string {
+				parts := make([]string, len(sel))
+				for i, e := range sel {
+					parts[i] = rowElems[e]
+				}
+				return "on: push\njobs:\n  a:\n    runs-on: ubuntu-latest\n    timeout-minutes: ${{ matrix.x }}\n    strategy:\n      matrix:\n        x: [" + strings.Join(parts, ", ") + "]\n    steps:\n      - run: echo ${{ " + cons + " }}\n"
+			}
+			for pos := 0; pos < n; pos++ {
+				if sel[pos] == len(rowElems)-1 {
+					continue
+				}
+				loose := append([]int{}, sel...)
+				loose[pos] = len(rowElems) - 1
+				for _, cons := range rowCons {
+					idx++
+					if !r.Mine(idx) {
+						continue
+					}
+					c06E2ECompare(r, mk(sel, cons), mk(loose, cons), "matrix-row-element-dynamic")
 				}
 			}
 		}
